@@ -15,6 +15,7 @@ type Script struct {
 	declared map[string]bool
 	counter  int
 	seenAssert map[string]bool
+	defined  map[string]bool // names introduced by define-fun (macros: not usable in patterns)
 }
 
 func newScript() *Script {
@@ -72,6 +73,10 @@ func (s *Script) define(base, sort, term string) string {
 	}
 	n := s.fresh(base)
 	s.declared[n] = true
+	if s.defined == nil {
+		s.defined = map[string]bool{}
+	}
+	s.defined[n] = true
 	s.add(fmt.Sprintf("(define-fun %s () %s %s)", n, sort, term))
 	return n
 }
@@ -406,4 +411,25 @@ func sortedKeys[V any](m map[string]V) []string {
 	}
 	sort.Strings(ks)
 	return ks
+}
+
+// usesDefined reports whether term mentions a define-fun abbreviation.
+func (s *Script) usesDefined(term string) bool {
+	i := 0
+	for i < len(term) {
+		c := term[i]
+		if c == '(' || c == ')' || c == ' ' {
+			i++
+			continue
+		}
+		j := balancedEnd(term, i)
+		if s.defined[term[i:j]] {
+			return true
+		}
+		if j <= i {
+			j = i + 1
+		}
+		i = j
+	}
+	return false
 }
